@@ -28,6 +28,9 @@ import vlib
 import mpi_algebra_common as A
 
 LEVEL = "exploration"
+META = {"text": "TLC evaluates the type-map semantics of MPI-3.1 chapter 4 (spec/mpi/MpiType.tla: contiguous, vector, hvector, indexed, hindexed, indexed_block, struct, resized, subarray; lb/ub/extent/size and the selected bytes) on every tree of an exhaustive constructor menu (2 levels in the quick tier, 3 in the thorough tier, over SHORT and INT) and on seeded random trees of up to 3 levels; SMPI builds the same trees on 3 ranks and the size/lb/extent of every node and the destination bytes of counts 0..3 (quick) / 0..5 (thorough) through send/recv, sendrecv, pack, unpack, typed<->byte transfers and bcast are compared with TLC's values. Exploration level: the trees run are a bounded sample of an unbounded input space; within the menus the enumeration is complete.",
+        "note": "Trusted: TLC and the reading of MPI-3.1 written in MpiType.tla (its laws are checked by TLC on every tree); the driver's byte patterns (a written byte is recognised by its value). Alignment padding epsilon is taken as 0. Four genuine defects are recorded as known findings with proposed fixes (indexed/struct bounds over an old type with lb != 0; subarray extent and 1-D start offset; element stride of serialize/unserialize for count >= 2); the labels of the stepping finding are computed from the inputs and over-approximate them by about 30%, see the module docstring.",
+        "technique": "TLC as case and oracle generator (exhaustive small scope + -simulate) for MpiType, replay into SMPI through harness/mpi_algebra.cpp, comparison in Python"}
 DRIVERS = A.DRIVERS
 KIND = {"basic": 0, "contig": 1, "vector": 2, "hvector": 3, "indexed": 4, "hindexed": 5, "iblock": 6, "struct": 7, "resized": 8, "subarray": 9}
 SAME = ("sr", "xr", "bc")          # destination offset = source offset
